@@ -426,6 +426,7 @@ def run(an: Analysis, rep):
     rep.rule("R04.7", "len(args)", 1)
     from .common import purity
     rep.run(purity, an, rep, "R04.P", ["from_code", "parameters", "args_len"])
+    rep.run(r04f, an, rep)
     from .common import SharedRules as _SR4
     from . import c01 as _c01
     for V in VERSIONS:
@@ -1106,3 +1107,109 @@ def r047(an, rep):
             ok = False
     rep.add("R04.7", f"{api.qual}::len(args) counts the parameters", ok, loc(api.module, api.node),
             "len(self.parameters)" if ok else "Args.__len__ is not the length of the parameter mapping")
+
+
+def r04f(an, rep, rule="R04.W"):
+    """The function that builds a CodeData from a code object, folded over witness code objects (as records of their co_* attributes) for every
+    kind of scope; the flag-word conversion is replaced by the reference table of the interpreter (C11 decides that conversion).  Expected, from
+    how CPython binds arguments (co_varnames = positional..., keyword-only..., *args, **kwargs; co_posonlyargcount from 3.8) and from
+    inspect / funcobject.c: the parameter kinds in signature order, len(args), __doc__ = co_consts[0] iff that is a str, the kind of function
+    from CO_GENERATOR / CO_COROUTINE / CO_ASYNC_GENERATOR, and type None for module and class-body code (also a class body that owns __class__)."""
+    from sa.feval import BlockOutcome, Obj
+    from .c03 import package_evaluator
+    from .c11 import reference as _ref
+    from reference.line_tables import asm_linetable
+    rep.rule(rule, "the decoder's header logic folded over witness code objects of every kind of scope", 4)
+    top = None
+    for f in an.closure("from_code"):
+        if isinstance(f.node, ast.FunctionDef) and f.cls is None and len(f.params) == 1 and any(isinstance(c, ast.Call) and isinstance(c.func, ast.Name) and c.func.id == "CodeData" for c in ast.walk(f.node)):
+            top = f
+    if top is None:
+        raise AnalysisError("the function that builds a CodeData from a code object was not found")
+    FN = ("OPTIMIZED", "NEWLOCALS")
+    # (name, flags, argcount, posonly, kwonly, varnames, consts, cellvars, co_name, expected (posonly, pos_or_kw, var_pos, kwonly, var_kw) or None, docstring, type)
+    W = [
+        ("def f(p, /, a, *args, k, **kw) with a local and a docstring", FN + ("VARARGS", "VARKEYWORDS", "NOFREE"), 2, 1, 1, ("p", "a", "k", "args", "kw", "loc"), ("doc", None), (), "f",
+         (("p",), ("a",), "args", ("k",), "kw"), "doc", None),
+        ("def f(a, *, k1, k2, **kw)", FN + ("VARKEYWORDS", "NOFREE"), 1, 0, 2, ("a", "k1", "k2", "kw"), (None,), (), "f", ((), ("a",), None, ("k1", "k2"), "kw"), None, None),
+        ("def f(*args) with a local", FN + ("VARARGS", "NOFREE"), 0, 0, 0, ("args", "x"), (None,), (), "f", ((), (), "args", (), None), None, None),
+        ("def f(**kw)", FN + ("VARKEYWORDS", "NOFREE"), 0, 0, 0, ("kw",), (None,), (), "f", ((), (), None, (), "kw"), None, None),
+        ("def f(a, b, /) with an empty docstring", FN + ("NOFREE",), 2, 2, 0, ("a", "b"), ("", None), (), "f", (("a", "b"), (), None, (), None), "", None),
+        ("def f(): first constant is bytes", FN + ("NOFREE",), 0, 0, 0, (), (b"doc", None), (), "f", ((), (), None, (), None), None, None),
+        ("a generator expression", FN + ("GENERATOR", "NESTED", "NOFREE"), 1, 0, 0, (".0", "x"), (None,), (), "<genexpr>", None, None, "GENERATOR"),
+        ("def g(a): yield", FN + ("GENERATOR", "NOFREE"), 1, 0, 0, ("a",), (None,), (), "g", ((), ("a",), None, (), None), None, "GENERATOR"),
+        ("async def c(*, k)", FN + ("COROUTINE", "NOFREE"), 0, 0, 1, ("k",), (None,), (), "c", ((), (), None, ("k",), None), None, "COROUTINE"),
+        ("async def ag(): yield", FN + ("ASYNC_GENERATOR", "NOFREE"), 0, 0, 0, (), ("doc",), (), "ag", ((), (), None, (), None), "doc", "ASYNC_GENERATOR"),
+        ("a function with a cell variable", FN, 1, 0, 0, ("a",), (None,), ("a",), "outer", ((), ("a",), None, (), None), None, None),
+        ("a module", ("NOFREE",), 0, 0, 0, (), ("doc", None), (), "<module>", "nofunc", None, None),
+        ("a class body that owns the __class__ cell", (), 0, 0, 0, (), ("C", None), ("__class__",), "C", "nofunc", None, None),
+    ]
+    for V in VERSIONS:
+        R = _ref(V)
+        names_of = {int(k): v for k, v in R["COMPILER_FLAG_NAMES"].items()}
+        val_of = {v: k for k, v in names_of.items()}
+        val_of.update({k: v for k, v in R["future_flags"].items() if v and str(v) not in R["COMPILER_FLAG_NAMES"]})
+        om = R["opmap"]
+
+        def to_flags(word):
+            out, rest = set(), word
+            for name, bit in val_of.items():
+                if word & bit:
+                    out.add(name)
+                    rest &= ~bit
+            if rest:
+                raise ValueError("unknown flag bits")
+            return out
+        bad = []
+        for wname, flags, argc, posonly, kwonly, varnames, consts, cellvars, coname, exp_args, exp_doc, exp_type in W:
+            if V < (3, 8):
+                if exp_args not in (None, "nofunc") and posonly:
+                    exp_args = ((), exp_args[0] + exp_args[1]) + exp_args[2:]
+                posonly_attr = {}
+            else:
+                posonly_attr = {"co_posonlyargcount": posonly}
+            word = 0
+            for f_ in flags:
+                word |= val_of[f_]
+            codeb = bytes([om["LOAD_CONST"], len(consts) - 1, om["RETURN_VALUE"], 0])
+            code = Obj({"__cls__": "code", "co_code": codeb, "co_consts": tuple(consts), "co_names": (), "co_varnames": tuple(varnames), "co_freevars": (), "co_cellvars": tuple(cellvars),
+                        "co_flags": word, "co_argcount": argc, "co_kwonlyargcount": kwonly, "co_nlocals": len(varnames), "co_stacksize": 1, "co_filename": "f.py", "co_name": coname,
+                        "co_firstlineno": 3, **posonly_attr})
+            if V >= (3, 10):
+                code["co_linetable"] = asm_linetable([(0, 0)], 4)
+            else:
+                code["co_lnotab"] = b""
+            ev, _R = package_evaluator(an, top.module, V, stubs={"to_flags_data": to_flags, "CodeType": type("NotACodeObject", (), {})})
+            try:
+                got = ev.call_method(top.node, code)
+            except BlockOutcome as o:
+                bad.append(f"{wname}: from_code stops at `{norm_src(o.node)[:60]}`")
+                continue
+            except AnalysisError:
+                raise
+            except Exception as ex:  # noqa: BLE001 - a gap of the evaluator, never a verdict
+                raise AnalysisError(f"{top.qual}: not evaluable on the witness code object '{wname}' ({type(ex).__name__}: {ex})")
+            if not isinstance(got, Obj) or got.get("__cls__") != "CodeData":
+                raise AnalysisError(f"{top.qual}: the result on the witness code object is not a CodeData")
+            tp = got.get("type")
+            why = None
+            if exp_args == "nofunc":
+                if tp is not None:
+                    why = f"type is {tp.get('__cls__') if isinstance(tp, Obj) else tp!r}, expected None for code that is not a function"
+            elif not isinstance(tp, Obj) or tp.get("__cls__") != "Function":
+                why = f"type is {tp!r}, expected a Function"
+            else:
+                if tp.get("type") != exp_type:
+                    why = f"kind of function {tp.get('type')!r}; the flags say {exp_type!r} (what inspect.isgeneratorfunction / iscoroutinefunction / isasyncgenfunction report)"
+                elif tp.get("docstring") != exp_doc or type(tp.get("docstring")) is not type(exp_doc):
+                    why = f"docstring {tp.get('docstring')!r}; __doc__ is {exp_doc!r} (co_consts[0] is {consts[0]!r})"
+                elif exp_args is not None:
+                    a = tp.get("args")
+                    gota = tuple(a.get(k) for k in ("positional_only", "positional_or_keyword", "var_positional", "keyword_only", "var_keyword")) if isinstance(a, Obj) else None
+                    if gota != exp_args:
+                        why = f"parameters (positional-only, positional-or-keyword, *, keyword-only, **) = {gota}; CPython binds {exp_args}"
+            if why:
+                bad.append(f"{wname}: {why}")
+        rep.add(rule, f"{top.qual}::witness code objects [{vname(V)}]", not bad, loc(top.module, top.node),
+                f"{len(W)} witness code objects (every parameter kind, bare *, empty / bytes first constant, generator expression, coroutine, async generator, cell owner, module, class body with __class__)"
+                if not bad else bad[0] + (f" (+{len(bad) - 1} more)" if len(bad) > 1 else ""))
